@@ -22,18 +22,20 @@ import (
 func main() {
 	attachGates()
 	var (
-		propID  = flag.String("property", "", "property id (C01..C20)")
-		tier    = flag.String("tier", "quick", "quick|thorough")
-		repo    = flag.String("repo", "/repo", "repository root")
-		evDir   = flag.String("evidence", "evidence", "evidence directory")
-		known   = flag.String("known", "known_findings.json", "known findings file")
-		replay  = flag.String("replay", "", "replay file: re-decide one obligation instance verbosely")
-		verbose = flag.Bool("v", false, "print every obligation instance")
-		list    = flag.Bool("list", false, "list properties and obligations")
-		noSelf  = flag.Bool("noselftest", false, "thorough: skip the rule liveness self-test")
-		noSweep = flag.Bool("nosweep", false, "thorough: skip the condition sensitivity sweep")
-		dump    = flag.String("dump", "", "debug: print the CFG of the named function and exit")
-		dumpPar = flag.Bool("dumpparams", false, "maintenance: print the parameter-name table of the module's functions (frozen in paramtable.go)")
+		propID   = flag.String("property", "", "property id (C01..C20)")
+		tier     = flag.String("tier", "quick", "quick|thorough")
+		repo     = flag.String("repo", "/repo", "repository root")
+		evDir    = flag.String("evidence", "evidence", "evidence directory")
+		known    = flag.String("known", "known_findings.json", "known findings file")
+		replay   = flag.String("replay", "", "replay file: re-decide one obligation instance verbosely")
+		verbose  = flag.Bool("v", false, "print every obligation instance")
+		list     = flag.Bool("list", false, "list properties and obligations")
+		noSelf   = flag.Bool("noselftest", false, "thorough: skip the rule liveness self-test")
+		noSweep  = flag.Bool("nosweep", false, "thorough: skip the condition sensitivity sweep")
+		dump     = flag.String("dump", "", "debug: print the CFG of the named function and exit")
+		noNorm   = flag.Bool("nonorm", false, "debug: analyse the tree as written, without inlining new helpers first")
+		dumpNorm = flag.String("dumpnorm", "", "debug: print the normalised source of the named file (suffix match) and exit")
+		dumpPar  = flag.Bool("dumpparams", false, "maintenance: print the parameter-name table of the module's functions (frozen in paramtable.go)")
 	)
 	flag.Parse()
 
@@ -109,6 +111,21 @@ func main() {
 		fmt.Printf("VIOLATION property=%s replay=%s\n", prop.ID, "evidence/replay/"+prop.ID+"-load.json")
 		os.Exit(1)
 	}
+	var normNotes []string
+	if !*noNorm {
+		p0, normNotes = normalizeProgram(p0)
+		for _, n := range normNotes {
+			fmt.Printf("note: %s\n", n)
+		}
+	}
+	if *dumpNorm != "" {
+		for name, b := range p0.overlay {
+			if strings.HasSuffix(name, *dumpNorm) {
+				fmt.Printf("==== %s\n%s\n", name, b)
+			}
+		}
+		return
+	}
 	progs = append(progs, p0)
 	if only == nil {
 		old, _ := filepath.Glob(filepath.Join(*evDir, "replay", prop.ID+"-*.json"))
@@ -146,6 +163,9 @@ func main() {
 	}
 
 	selftest := map[string]any{}
+	if len(normNotes) > 0 {
+		selftest["normalisation"] = normNotes
+	}
 	if *tier == "thorough" && !*noSelf && only == nil {
 		selftest = runSelfTest(p0, prop, results)
 		for k, v := range runStabilityTest(p0, prop, funcs) {
